@@ -60,7 +60,8 @@ TRUSTED = ["python ast semantics", "library effect table in sa/rules/c17.py "
 ASSUMPTIONS = ["A2 (library effect table complete for the APIs evo uses)",
                "main_fig --to_html and main_ipython are outside the "
                "property's command list"]
-FLOORS = {"C17.1": 8, "C17.2": 8, "C17.3": 17, "C17.4": 4, "C17.6": 1}
+FLOORS = {"C17.1": 8, "C17.2": 8, "C17.3": 17, "C17.4": 4, "C17.6": 1,
+          "C17.7": 10}
 
 CHK = "evo.tools.user.check_and_confirm_overwrite"
 CONFIRM = "evo.tools.user.confirm"
@@ -303,6 +304,19 @@ def check(ctx):
                        f"buffer, no file involved",
                        key=f"C17.3:buffer:{q}:{tgt.name}", nontrivial=False)
                 continue
+            if patharg is not None:
+                kinds = path_kinds(patharg, results, 0)
+                bad = sorted(k for k in kinds if k.startswith("PurePath"))
+                ctx.ob("C17.7", e, not bad,
+                       f"{q} -> {tgt.name}: the path handed over is a str / "
+                       f"Path / buffer ({sorted(kinds)})" if not bad else
+                       f"{q} -> {tgt.qualname}: the path argument can be a "
+                       f"{bad[0]} object: evo's writers ask for confirmation "
+                       f"only for `isinstance(path, (str, Path))` and treat "
+                       f"everything else as an open handle, but zipfile / "
+                       f"open() accept a PurePath — the existing file is "
+                       f"replaced without a prompt",
+                       key=f"C17.7:{q}:{tgt.name}", kinds=sorted(kinds))
             c = b.get("confirm_overwrite")
             ok, why = _confirm_arg_ok(c, e)
             ctx.ob("C17.3", e, ok,
@@ -314,6 +328,48 @@ def check(ctx):
 
     # --------------------------------------------------------------- C17.4
     _check_prompt(ctx)
+
+
+PURE = ("pathlib.PurePath", "pathlib.PurePosixPath",
+        "pathlib.PureWindowsPath")
+PATH_METHODS = (".with_suffix", ".with_name", ".with_stem", ".joinpath",
+                ".resolve", ".absolute", ".expanduser", ".relative_to")
+
+
+def path_kinds(t: T, results, depth: int) -> set:
+    """coarse type tags of a path-valued term: str, Path, PurePath(..),
+    buffer, unknown — by provenance, following evo helpers' returns"""
+    while t.op == "named":
+        t = t.args[1]
+    if t.op == "ite":
+        return path_kinds(t.args[1], results, depth) | \
+            path_kinds(t.args[2], results, depth)
+    if tm.is_const(t) and isinstance(t.args[1], str) or t.op == "fstr":
+        return {"str"}
+    if t.op == "binop" and t.args[0] == "Add":
+        return {"str"}
+    if t.op == "binop" and t.args[0] == "Div":
+        return path_kinds(t.args[1], results, depth)
+    if t.op == "attr" and t.args[1] in ("parent",):
+        return path_kinds(t.args[0], results, depth)
+    if t.op == "call":
+        n = tm.callee_name(t) or ""
+        if n in PURE:
+            return {f"PurePath ({n.split('.')[-1]})"}
+        if n == "pathlib.Path":
+            return {"Path"}
+        if n in BUFFERS:
+            return {"buffer"}
+        if n.startswith("os.path.") or n in ("builtins.str", "os.fspath",
+                                             "os.fsdecode"):
+            return {"str"}
+        if n in PATH_METHODS:
+            return path_kinds(tm.method_recv(t), results, depth)
+        if n.startswith("evo.") and depth < 3 and n in results:
+            ret = results[n].ret
+            if ret is not None and ret is not tm.NONE:
+                return path_kinds(ret, results, depth + 1)
+    return {"unknown"}
 
 
 def _last_part(p: T) -> T:
